@@ -40,11 +40,11 @@ Value& LTRIMExpression::value(Context& ctx) const
     if (val.lvalue())
       return ctx.allocate(Value(Value::type_literal));
     val.swap(Value(Value::type_literal));
-    return val;
+    return handback(ctx, val);
   case Type::LITERAL:
   {
     if (val.isNull())
-      return val;
+      return handback(ctx, val);
     int64_t a, c;
     Literal * rv = val.literal();
     c = rv->size();
@@ -55,12 +55,12 @@ Value& LTRIMExpression::value(Context& ctx) const
       if (val.lvalue())
         return ctx.allocate(Value(new Literal(rv->substr(a))));
       val.literal()->assign(rv->substr(a));
-      return val;
+      return handback(ctx, val);
     }
     if (val.lvalue())
       return ctx.allocate(Value(new Literal()));
     val.literal()->clear();
-    return val;
+    return handback(ctx, val);
   }
   default:
     throw RuntimeError(EXC_RT_FUNC_ARG_TYPE_S, KEYWORDS[oper]);
